@@ -82,6 +82,13 @@ def numValuesOf (ph : PHdr) : R Int :=
   | some (nv, _, _, _, _) => .ok nv
   | none => .error .panic          -- nil DataPageHeader dereferenced
 
+/-- `checkPage`: a v1 data page with PLAIN values and (where the column has them) RLE levels -/
+def checkPage (ph : PHdr) (defs reps : Bool) : Bool :=
+  ph.ty = 0 &&
+  match ph.dph with
+  | none => false
+  | some (_, enc, denc, renc, _) => enc = 0 && (!defs || denc = 3) && (!reps || renc = 3)
+
 /-- `RequiredField.DoRead`: concatenated page data and per-page value counts -/
 def requiredDoRead (dc : Decomp) (pg : PageMeta) : Nat → Src → Int → Bytes → List Int → R (Bytes × List Int × Src)
   | 0, _, _, _, _ => .error .err
@@ -89,6 +96,7 @@ def requiredDoRead (dc : Decomp) (pg : PageMeta) : Nat → Src → Int → Bytes
     if nRead < pg.n then do
       let (t, s) ← s.readStruct
       let ph ← match decPHdr t with | some p => pure p | none => .error .err
+      if !checkPage ph false false then .error .err else
       let nv ← numValuesOf ph
       let (d, s) ← pageData dc s ph pg.codec
       requiredDoRead dc pg fuel s (nRead + nv) (out ++ d) (sizes ++ [nv])
@@ -110,6 +118,7 @@ def optionalDoRead (dc : Decomp) (c : Col) (pg : PageMeta) : Nat → Src → Int
       let p0 := s.pos
       let (t, s) ← s.readStruct
       let ph ← match decPHdr t with | some p => pure p | none => .error .err
+      if !checkPage ph true (c.maxRep > 0) then .error .err else
       let (data, s) ← pageData dc s ph pg.codec
       let nv ← numValuesOf ph
       let (buf, l) ← (if c.maxRep > 0 then do
